@@ -1081,6 +1081,8 @@ def r6_5(ctx):
                     fake = ast.If(test=ge.ifs[0], body=[], orelse=[])
                     fake.lineno = lc.lineno
                     record(key, mask, [], fake)
+    if not covered:
+        raise AnalysisError("Style._make_ansi_codes: no `if attributes & <mask>: append(_style_map[k])` emission was recognised (bit tests, masked loops or a comprehension over range()); the attribute loop is written in a form this rule does not interpret")
     missing = sorted(set(bits.values()) - set(covered))
     dup = sorted(k for k, c in covered.items() if c > 1)
     ctx.check(not missing and not dup, mk.fq, "attribute bit coverage", mk.where, f"_make_ansi_codes emits each of the {len(bits)} attribute bits exactly once",
@@ -1089,8 +1091,12 @@ def r6_5(ctx):
     masked = False
     for n in walk_local(mk.node):
         if isinstance(n, ast.Assign) and isinstance(n.value, ast.BinOp) and isinstance(n.value.op, ast.BitAnd):
-            s = {norm(n.value.left), norm(n.value.right)}
-            if s == {"self._attributes", "self._set_attributes"}:
+            def leaves(e):
+                if isinstance(e, ast.BinOp) and isinstance(e.op, ast.BitAnd):
+                    return leaves(e.left) + leaves(e.right)
+                return [norm(e)]
+            s = set(leaves(n.value))
+            if {"self._attributes", "self._set_attributes"} <= s and all(x in ("self._attributes", "self._set_attributes") or const_int(ast.parse(x, mode="eval").body) is not None for x in s):
                 masked = True
     ctx.check(masked, mk.fq, "attributes = self._attributes & self._set_attributes", mk.where,
               "bit tests use value∧set (unset / False attributes emit nothing)", "bit tests are not applied to _attributes & _set_attributes")
